@@ -1,6 +1,6 @@
 #!/bin/bash
 # confirm_seed.sh <id-lower> <k>: in the agent's worktree apply patch k, run the repo suite and the demo; revert; run the demo clean.
-id=$1; k=$2; wt=/tmp/wt_$id
+id=$1; k=$2; wt=${WTPREFIX:-/tmp/wt_}$id
 cd $wt || exit 2
 git checkout -q -- . 
 git apply _seed/patch$k.diff || { echo "APPLY FAILED"; exit 2; }
